@@ -338,6 +338,9 @@ def template_run(verif_seed, index, stratum="template"):
             spec["quirks"] = None
         elif index % 2 == 0 and "descriptive" not in (spec.get("quirks") or []):
             spec["quirks"] = (spec.get("quirks") or []) + ["descriptive"]
+        elif index % 8 == 3:
+            # a non-tabulated description whose operations are written 'x, y, z'
+            spec["quirks"] = ["shifted_origin", "symop_blanks"]
     A = gen_args(rng, is_large(spec))
     ref_mode = ref_mode_for(rng)
     plan = []
@@ -374,7 +377,8 @@ def template_run(verif_seed, index, stratum="template"):
 KWP_FIRST = [None, "uc_mols"]
 KWP_KW = sorted(O.KW_QUERIES)
 KWP_FOLLOW = ["conn", "uc_mols", "sym_mols", "menv"]
-KWP_HOW = ["switch", "stranger"]  # how a default-argument recomputation is provoked afterwards
+KWP_HOW = ["switch", "stranger", "self_switch"]  # how a default-argument recomputation is provoked afterwards
+KWP_CONSUMER = {"conn": "as_P1", "uc_mols": "mol_dict", "sym_mols": "charges", "menv": "menv"}
 N_KWPAIRS = 2 * len(KWP_FIRST) * len(KWP_KW) * len(KWP_FOLLOW) * len(KWP_HOW)
 
 
@@ -401,7 +405,15 @@ def kwpair_run(verif_seed, index, stratum="kwpairs"):
             other = "toR" if choice == "H" else "toH"
             steps = [{"h": 0, "op": first}] if first else []
             steps += [{"h": 0, "op": "stranger_kw"}, {"h": 1, "op": kwq}]
-            if how == "switch":
+            if how == "self_switch":
+                # the keyword crystal itself changes state: in the new memo
+                # lifetime it is asked default-argument consumers only, after
+                # the next change the keyword query again
+                cons = KWP_CONSUMER[follow]
+                back = "toH" if choice == "H" else "toR"
+                steps += [{"h": 1, "op": other}, {"h": 1, "op": cons}, {"h": 1, "op": "menv"},
+                          {"h": 1, "op": back}]
+            elif how == "switch":
                 steps += [{"h": 0, "op": other}, {"h": 0, "op": follow}]
             else:
                 steps += [{"h": 0, "op": "stranger"}, {"h": 2, "op": follow}]
